@@ -4,7 +4,7 @@
    operation is followed through all five compressing kinds. *)
 From Coq Require Import ZArith NArith List Bool Lia Arith.
 From FV.Model Require Import Bytes Bson Metrics Codec Collector Wf RoundTrip CollectorOk.
-From FV.Proofs Require Import BytesProofs BsonProofs MetricsProofs CodecChunk CodecProofs CollectorHyps CollectorBase
+From FV.Proofs Require Import BytesProofs BsonProofs MetricsProofs CodecChunk CodecProofs CollectorBase
   CollectorKinds.
 Import ListNotations.
 Open Scope Z_scope.
